@@ -3,6 +3,7 @@ package main
 import (
 	"fmt"
 	"math/big"
+	"regexp"
 	"strings"
 )
 
@@ -24,7 +25,7 @@ func runC08(e *Env) error {
 	rg := e.Rng
 	r.Rule = "(a) every ordered pair of binary operators × both groupings × several atom assignments: minimal vs full parenthesisation on the real engine, minimal spelling also through the Lean model; " +
 		"(b) random expression trees (depth ≤ 4, thorough 6) over literals, variables, attribute/index access, unary, binary, conditional, tests, filters, printed minimal / full / with redundant parentheses and random spacing; " +
-		"(c) one expression in ten syntactic positions; (d) short-circuit and conditional evaluation observed through spy functions; (e) exact integer arithmetic against math/big; " +
+		"(a') every symbolic operator between 13 left and 10 right operand shapes written with no spaces vs with spaces; (c) one expression in ten syntactic positions; (d'') `matches` with and without the i flag asked in three orders against package regexp; (d) short-circuit and conditional evaluation observed through spy functions; (e) exact integer arithmetic against math/big; " +
 		"non-trivial = at least two operators; distinct by source"
 	ctx := map[string]any{"a": 7, "b": 2, "c": 3, "s": "ab", "u": "b", "t": true, "f": false, "l": []interface{}{1, 2, "b"}, "z": 0}
 	atomSets := [][3]GExpr{
@@ -64,6 +65,34 @@ func runC08(e *Env) error {
 		}
 	}
 	r.Note(fmt.Sprintf("operator-pair evaluations: %d", pairEvals))
+	// (a') tight spellings: every symbolic operator between every kind of left and right operand with no space at all
+	// (a sign, a bracket or a quote next to the operator must not change how it is read)
+	{
+		tctx := map[string]any{"a": 7, "b": 2, "l": []interface{}{5, 3, 1}, "m": map[string]interface{}{"k": 9}, "s": "ab"}
+		lefts := []string{"a", "7", "l[1]", "m['k']", "m.k", "(4)", "l|length", "length(l)", "'12'", "\"3\"", "[8][0]", "{'q': 8}['q']", "{'q': 8}.q"}
+		rights := []string{"b", "1", "l[2]", "(2)", "m['k']", "'2'", "-1", "- 1", "+1", "[2][0]"}
+		for _, op := range []string{"==", "!=", "<", ">", "<=", ">=", "+", "-", "~", "*", "/", "%", "^"} {
+			for _, lft := range lefts {
+				for _, rgt := range rights {
+					tight, spaced := lft+op+rgt, lft+" "+op+" "+rgt
+					iT, _, _, err := compareCase(e, exprCase(tight, tctx), "render-model-c08", "correspondence (Lean lexer+parser+evaluator vs real engine) on operators written without spaces")
+					if err != nil {
+						return err
+					}
+					iS := runImpl(exprCase(spaced, tctx))
+					r.Seen("tight:"+tight, true)
+					r.Hit("tight-spelling")
+					if iT.Class != iS.Class || iT.Out != iS.Out {
+						if r.Violate(Violation{Key: "spacing-changes-value", What: fmt.Sprintf("%s = %q (%s %s) but %s = %q (%s)", tight, iT.Out, iT.Class, truncate(iT.Msg, 80), spaced, iS.Out, iS.Class),
+							Broken: "theorem C08_lex_spacing no longer describes the code (implementation-only oracle: spaces around an operator do not matter)",
+							Replay: map[string]any{"kind": "expr-pair", "min": tight, "full": spaced, "out_min": iT.Out, "out_full": iS.Out, "class_min": iT.Class, "class_full": iS.Class, "ctx": fmt.Sprint(tctx)}}) {
+							return nil
+						}
+					}
+				}
+			}
+		}
+	}
 	// (b) random trees
 	n := e.N(2500, 120000)
 	depth := e.N(4, 6)
@@ -157,6 +186,47 @@ func runC08(e *Env) error {
 					return err
 				}
 				r.Seen("in:"+src, true)
+			}
+		}
+	}
+	// (d'') `matches`: the answer is that of the regular expression with its own flags, whatever was matched before
+	// (regular expressions are outside the Lean model; the oracle is Go's regexp package)
+	{
+		subjects := []string{"abc", "ABC", "xabcx", "", "a1", "A-1"}
+		pats := []string{"/abc/", "/abc/i", "/^abc$/", "/^abc$/i", "/a.c/", "/[a-z]+/", "/[a-z]+/i", "/^$/", "/B/", "/B/i", "/b/", "/b/i"}
+		type mc struct{ subj, pat string }
+		var order []mc
+		for _, p := range pats {
+			for _, sj := range subjects {
+				order = append(order, mc{sj, p})
+			}
+		}
+		rev := make([]mc, len(order))
+		for i, x := range order {
+			rev[len(order)-1-i] = x
+		}
+		shuf := append([]mc{}, order...)
+		rg.Shuffle(len(shuf), func(i, j int) { shuf[i], shuf[j] = shuf[j], shuf[i] })
+		for pass, seq := range [][]mc{order, rev, shuf} {
+			for _, x := range seq {
+				body := x.pat[1:strings.LastIndex(x.pat, "/")]
+				flags := x.pat[strings.LastIndex(x.pat, "/")+1:]
+				goPat := strings.ReplaceAll(strings.ReplaceAll(body, "\\\\", "\\"), "\\d", "[0-9]")
+				if flags == "i" {
+					goPat = "(?i)" + goPat
+				}
+				want := fmt.Sprint(regexp.MustCompile(goPat).MatchString(x.subj))
+				src := "subj matches '" + x.pat + "'"
+				im := runImpl(exprCase(src, map[string]any{"subj": x.subj}))
+				r.Seen(fmt.Sprintf("matches:%d:%s:%s", pass, x.subj, x.pat), true)
+				r.Hit("matches")
+				if im.Class != "" || im.Out != want {
+					if r.Violate(Violation{Key: "matches-depends-on-history", What: fmt.Sprintf("%q matches '%s' gives %q (%s), Go's regexp says %s (pass %d: the same questions asked in another order)", x.subj, x.pat, im.Out, im.Class, want, pass),
+						Broken: "C08 operator semantics (implementation-only oracle against package regexp; regular expressions are not modelled)",
+						Replay: map[string]any{"kind": "expr", "src": src, "subj": x.subj, "got": im.Out, "want": want, "pass": pass}}) {
+						return nil
+					}
+				}
 			}
 		}
 	}
